@@ -97,6 +97,12 @@ def run(ctx):
                 cut = text[:max(text.rfind("-}"), 0)]
                 for tail in ("-}", "\n-}", ":72:END\n-}{5:{CHK:123456789ABC}}", "}-}"):
                     inputs.append((tail + cut, "msg", "split-batch")); inputs.append((tail + cut[:int(len(cut) * 0.7)], "msg", "split-batch"))
+            # long runs of 2-, 3- and 4-byte characters after the last field, at every alignment: whatever is echoed, cut
+            # or measured at a fixed byte offset of the left-over text meets the inside of a character
+            for ch in ("é", "€", "😀"):
+                for pad in range(len(ch.encode("utf-8"))):
+                    inputs.append((body.rstrip("\n") + "\n:99Z:" + "x" * pad + ch * 150 + "\n", "msg", "nonascii-tail"))
+                    inputs.append((body.rstrip("\n") + "\n" + "x" * pad + ch * 150 + "\n", "msg", "nonascii-tail"))
             # a line starting with ':' that is no field marker, content ending in a new line + colon
             for extra in ["\n: NOTE", "\n:-) REGARDS", "\n:123456:X", "\n:", "\n:\n", "\n:2", "\n::"]:
                 i = rng.randrange(len(toks))
